@@ -168,7 +168,7 @@ func gen(r *core.PRNG, tier string) any {
 		p.Param = []int{128, 256}[r.Intn(2)]
 		p.Custom = r.Hex([]int{0, 1, 16, 38, 254, 255, 256, 257, 400}[r.Intn(9)])
 		for i, n := 0, r.Range(1, 5); i < n; i++ {
-			p.Exp = append(p.Exp, Op{K: "expand", Obj: r.EdgeLen(300, 0, 64, 128), N: []int{0, 1, 31, 32, 33, 64, 100, 255, 256, 8160, r.Intn(400)}[r.Intn(11)]})
+			p.Exp = append(p.Exp, Op{K: "expand", Obj: r.EdgeLen(300, 0, 64, 128), N: []int{0, 1, 31, 32, 33, 64, 100, 255, 256, 8160, 8161, 12241, 16321, 65535, 65536, 65568, r.Intn(400)}[r.Intn(17)]})
 		}
 	case 2: // multi-lane permutations
 		p.Fam = []string{"keccakx2", "keccakx4"}[r.Intn(2)]
@@ -594,13 +594,22 @@ func execExpander(p *Plan, run *core.Run) {
 	}
 	data := core.NewPRNG(p.Seed)
 	for i, op := range p.Exp {
-		if op.N < 0 || op.N > 65535 || op.Obj < 0 || op.Obj > 5000 {
+		if op.N < 0 || op.N > 70000 || op.Obj < 0 || op.Obj > 5000 {
 			continue
 		}
 		msg := data.Bytes(op.Obj)
 		want := ref(msg, op.N)
 		if want == nil {
-			continue // the RFC aborts (documented panic in the library)
+			// the RFC aborts: len_in_bytes over 65535, or over 255 hash blocks. The library
+			// documents a panic; handing out bytes instead would be an answer to a request
+			// that has none (for the XOF variant, the answer to another, shorter request)
+			var out []byte
+			if pan, _, _ := core.Try(func() { out = e.Expand(msg, uint(op.N)) }); !pan {
+				run.Violate(comp, "answers-a-request-the-rfc-aborts", "msg of %d bytes, len_in_bytes %d: RFC 9380 aborts, Expand returned %d bytes (%s)", len(msg), op.N, len(out), short(out))
+				return
+			}
+			run.Fault("misuse:len_in_bytes-beyond-the-rfc-limit")
+			continue
 		}
 		if shared {
 			copy(frame[len(dst):], msg)
